@@ -106,6 +106,7 @@ func runC12(a *A) {
 				fmt.Sprintf("shortcut regex accepts {%s} but %s handles {%s}: an accepted operator without a case evaluates to false instead of falling back", strings.Join(ops, " "), inst.cmp, strings.Join(cases, " ")))
 		}
 	})
+	a.Rule("flow/having-fails-closed", 2, func() { a.ruleHavingFailsClosed() })
 	a.Rule("tables/shortcut-literal-class", 1, func() {
 		// The general engine unescapes a quoted literal, the shortcut compares the text between the quotes
 		// as written. They agree only on literals without an escape: the character class of the literal in
@@ -499,4 +500,44 @@ func (a *A) ruleLossless() {
 
 func isQuoteLit(r *syntax.Regexp) bool {
 	return r.Op == syntax.OpLiteral && len(r.Rune) > 0 && r.Rune[len(r.Rune)-1] == '\'' && r.Rune[0] == '\''
+}
+
+// ruleHavingFailsClosed: "a predicate whose evaluation fails rejects the row". The HAVING filters
+// compile their predicate at run time; when that fails they must not hand back their input (every
+// group accepted). On every return that is guarded by a non-nil error, the returned slice is not the
+// parameter.
+func (a *A) ruleHavingFailsClosed() int {
+	n := 0
+	for _, name := range []string{"applyHavingWithCondition", "applyHavingWithCaseExpression"} {
+		fn := a.Method("stream", "DataProcessor", name)
+		var param ssa.Value
+		for _, p := range fn.Params {
+			if _, ok := p.Type().Underlying().(*types.Slice); ok {
+				param = p
+			}
+		}
+		for _, b := range fn.Blocks {
+			ret, ok := b.Instrs[len(b.Instrs)-1].(*ssa.Return)
+			if !ok || len(ret.Results) == 0 {
+				continue
+			}
+			onErr := guardedByValue(b, func(v ssa.Value) bool {
+				bo, ok := v.(*ssa.BinOp)
+				return ok && bo.Op == token.NEQ && isNilConst(bo.Y) && isErrorType(bo.X.Type())
+			}, true)
+			if !onErr {
+				continue
+			}
+			n++
+			same := false
+			for _, l := range phiLeaves(ret.Results[0]) {
+				if l == param {
+					same = true
+				}
+			}
+			a.Check(!same, fname(fn)+"#fails-closed", ret.Pos(), "on a predicate that cannot be compiled the filter returns nothing",
+				"on a predicate that cannot be compiled the filter returns its input: every group is delivered although the predicate could not be evaluated")
+		}
+	}
+	return n
 }
